@@ -439,6 +439,9 @@ def _equal_or_same(a, b):
     Note that np.nan != float('nan') != pd.NA etc., so we collapse all of these
     missing value things using pd.isna()
     """
+    if a is pd.NA or b is pd.NA:
+        # comparisons with pd.NA are themselves pd.NA, which has no truth value
+        return bool(pd.isna(a) and pd.isna(b))
     return a == b or a is b or (pd.isna(a) and pd.isna(b))
 
 
